@@ -147,6 +147,15 @@ def run(ctx, R, tier):
             if not any(t is region and part == "body" for t, part in enclosing_trys(c, f.node)):
                 ok = False
                 why = "the request is sent outside the try whose handler releases the connection: a send failure leaves the dead connection on the proxy"
+        # what is done with the reply (sequence check, serializer check, decoding) runs inside that same try body: in its else-clause, or after it, a failing check
+        # raises its ProtocolError past the handler that releases the connection - the proxy keeps a connection whose stream is out of step
+        after_recv = [c for c in walk_no_nested(f.node) if isinstance(c, ast.Call) and ((isinstance(c.func, ast.Attribute) and (c.func.attr.endswith("__pyroCheckSequence") or c.func.attr == "loads"))
+                                                                                          or (isinstance(c.func, ast.Attribute) and c.func.attr in ("ProtocolError", "SerializeError")))]
+        for c in after_recv:
+            if not any(t is region and part == "body" for t, part in enclosing_trys(c, f.node)):
+                ok = False
+                why = "`%s` runs outside the body of the try whose handler releases the connection (in its else-clause or after it): when it raises, the proxy keeps the " \
+                      "connection although the reply stream is out of step - every later call reads its predecessor's reply" % unparse(c, 60)
         # nothing after the region at function level that uses the reply
         top = region
         while getattr(top, "_parent", None) is not f.node:
